@@ -18,10 +18,91 @@ SITES = ["RENC", "UKY", "LBNL"]
 NICS = {"shared": fu.ComponentModelType.SharedNIC_ConnectX_6, "smart6": fu.ComponentModelType.SmartNIC_ConnectX_6,
         "smart5": fu.ComponentModelType.SmartNIC_ConnectX_5, "gpu": fu.ComponentModelType.GPU_Tesla_T4,
         "nvme": fu.ComponentModelType.NVME_P4510}
+# ... and every other model of the component catalog under its own name (read from the library: a new model is generated
+# too).  What a model brings with it - how many ports, of which type, in a service of which name - is not written down
+# here but observed once on a scratch topology (`catalog()`): the rare model with ports of its own (an FPGA) is then
+# generated, connected and removed like the NICs.
+for _m in fu.ComponentModelType:
+    if _m not in NICS.values():
+        NICS[_m.name] = _m
+_CATALOG = {}
+
+
+def catalog():
+    """kind -> (number of ports, ports are DedicatedPorts, suffix of the name of the component's own service or None,
+    ComponentType name); observed on a scratch topology, once per process."""
+    if not _CATALOG:
+        t = ExperimentTopology()
+        try:
+            for kind, m in NICS.items():
+                c = t.add_node(name="nn", site="RENC").add_component(name="cc", model_type=m)
+                ifs = c.interface_list
+                nss = list(c.network_services.keys())
+                suffix = nss[0][len("nn-cc-"):] if nss and nss[0].startswith("nn-cc-") else None
+                _CATALOG[kind] = (len(ifs), bool(ifs) and all(str(i.type) == "DedicatedPort" for i in ifs), suffix, str(c.type))
+                t.graph_model.delete_graph()
+                t = ExperimentTopology()
+        finally:
+            t.graph_model.delete_graph()
+    return _CATALOG
+
+
+def nports(kind):
+    return catalog()[kind][0]
+
+
+def dedicated(kind):
+    return catalog()[kind][1]
+
+
+def own_service(node, comp, kind):
+    """Name of the service a component of this kind comes with (None: it has none)."""
+    sfx = catalog()[kind][2]
+    return None if sfx is None else "%s-%s-%s" % (node, comp, sfx)
+
+
+def port_kinds():
+    return [k for k in NICS if nports(k) > 0]
+
+
+def draw_kind(rng):
+    """Component model for a random recipe: the common ones often, every model of the catalog now and then (the rare
+    ones with ports of their own - FPGAs - in particular)."""
+    u = rng.random()
+    if u < 0.7:
+        return rng.choice(["shared", "smart6", "smart6", "smart5", "gpu", "nvme"])
+    if u < 0.85:
+        rare = [k for k in port_kinds() if k not in ("shared", "smart6", "smart5")]
+        return rng.choice(rare or ["smart6"])
+    return rng.choice(sorted(NICS))
 CLS = {"NetworkNode": 0, "Component": 1, "NetworkService": 2, "ConnectionPoint": 3, "Link": 4}
 PRUNE_STATE = "Failed"
 # every member of the LinkType enumeration (read from the library: a new member is generated too)
 LINK_TYPES = [m.name for m in fu.LinkType]
+
+
+# every member of the ServiceType enumeration: a service of a topology may be of any of them, single-site or not
+SERVICE_TYPES = [m.name for m in fu.ServiceType]
+
+
+def service_opts(st):
+    """Optional 4th element of a "service" step: {"t": ServiceType name, "site": site or absent}; L2Bridge without a site
+    when absent (older corpus cases)."""
+    return st[3] if len(st) > 3 and st[3] else {}
+
+
+def draw_service_opts(rng, refs, kinds):
+    """Type and site of a generated service.  Every ServiceType (the guard rails refuse only L2PTP on a shared port); half of
+    the services carry a site - the one thing validate() would also write into them - so that a removal next to them has a
+    property to lose.  kinds: (node, comp) -> component kind."""
+    if rng.random() < 0.35:
+        return None
+    shared = any(x[0] in ("n", "c") and not dedicated(kinds.get((x[1], x[2]), "smart6")) for x in refs) or any(x[0] in ("f", "w") for x in refs)
+    t = rng.choice([x for x in SERVICE_TYPES if not (x == "L2PTP" and shared)])
+    o = {"t": t}
+    if rng.random() < 0.6:
+        o["site"] = rng.choice(SITES)
+    return o
 
 
 def link_type(st):
@@ -61,15 +142,14 @@ def gen_recipe(rng, size=None):
         r.append(["node", nn, rng.choice(SITES)])
         nodes.append(nn)
         for c in range(rng.choice([0, 1, 1, 2, 2, 3])):
-            kind = rng.choice(["shared", "smart6", "smart6", "smart5", "gpu", "nvme"])
+            kind = draw_kind(rng)
             # half of the recipes reuse component / sub-interface names wherever the API allows it (component names are
             # unique per node, sub-interface names per parent port): equal-named ports then meet in one service
             cn = CN[c] if short else "%s-c%d" % (nn, c)
             r.append(["comp", nn, cn, kind])
-            nports = {"shared": 1, "smart6": 2, "smart5": 2}.get(kind, 0)
-            for p in range(nports):
+            for p in range(nports(kind)):
                 ifs.append(["n", nn, cn, p])
-                if kind != "shared" and rng.random() < 0.35:
+                if dedicated(kind) and rng.random() < 0.35:
                     for ch in range(rng.choice([1, 1, 2, 3])):
                         chn = VN[ch] if short else "%s-p%d-ch%d" % (cn, p, ch)
                         r.append(["child", nn, cn, p, chn, str(100 + ch)])
@@ -91,11 +171,13 @@ def gen_recipe(rng, size=None):
         sn = SN[s]
         k = rng.choice([0, 1, 2, 2, 3])
         mine, free = free[:k], free[k:]
-        r.append(["service", sn, mine])
+        so = draw_service_opts(rng, mine, {(x[1], x[2]): x[3] for x in r if x[0] == "comp"})
+        r.append(["service", sn, mine] + ([so] if so else []))
         svcs.append(sn)
     # later connect_interface calls
+    l2ptp = {st[1] for st in r if st[0] == "service" and service_opts(st).get("t") == "L2PTP"}
     for sn in svcs:
-        if free and rng.random() < 0.3:
+        if free and rng.random() < 0.3 and sn not in l2ptp:
             r.append(["connect", sn, free.pop()])
     # peerings (ASM style)
     for a, b in itertools.combinations(svcs, 2):
@@ -118,6 +200,10 @@ def gen_recipe(rng, size=None):
         # every link type: the number of ends of a link is a fact of the graph, not of its Type (LinkConstraints are not enforced)
         r.append(["link", LN[ln % len(LN)] if ln < len(LN) else "l%d" % ln, ends, rng.choice(LINK_TYPES)])
         ln += 1
+    # Topology.validate() somewhere before the removals: it writes what it infers (the site of a single-site service) into
+    # the model; whether it then accepts the topology or not, the state it leaves is the state the removal starts from
+    if rng.random() < 0.3:
+        r.append(["validate"])
     # reservation marks for prune
     marks = []
     for nn in nodes:
@@ -126,9 +212,9 @@ def gen_recipe(rng, size=None):
     for c in [x for x in r if x[0] == "comp"]:
         if rng.random() < 0.15:
             marks.append(["comp", c[1], c[2]])
-        if c[3] in ("shared", "smart6", "smart5") and rng.random() < 0.12:
+        if own_service(c[1], c[2], c[3]) and rng.random() < 0.12:
             # the component's own service: nested in its component and node when those are marked too
-            marks.append(["service", "%s-%s-l2ovs" % (c[1], c[2])])
+            marks.append(["service", own_service(c[1], c[2], c[3])])
     for sn in svcs:
         if rng.random() < 0.25:
             marks.append(["service", sn])
@@ -155,9 +241,9 @@ def gen_substrate_recipe(rng, size=None):
         for c in range(rng.choice([0, 1, 1, 2])):
             kind = rng.choice(["shared", "smart6", "smart5", "gpu"])
             r.append(["comp", nn, CN[c], kind])
-            for p in range({"shared": 1, "smart6": 2, "smart5": 2}.get(kind, 0)):
+            for p in range(nports(kind)):
                 free.append(["n", nn, CN[c], p])
-                if kind != "shared" and rng.random() < 0.35:
+                if dedicated(kind) and rng.random() < 0.35:
                     for ch in range(rng.choice([1, 2])):
                         r.append(["child", nn, CN[c], p, ["v1", "v10"][ch], str(100 + ch)])
                         free.append(["c", nn, CN[c], p, ["v1", "v10"][ch]])
@@ -259,6 +345,26 @@ def corner_recipes():
                      ["service", "net", [["c", "n1", "nic1", 0, "v10"]]], ["peer", "net", "net1"], ["mark", "comp", "n1", "nic1"]])
     # prune of a node whose sub-interface is connected
     out.append(base + [["child", "n0", "n0-c0", 0, "ch0", "100"], ["service", "s0", [["c", "n0", "n0-c0", 0, "ch0"], B]], ["mark", "node", "n0"]])
+    # every model of the catalog that brings ports of its own (the NICs and the rare one: FPGAs), next to a port-less
+    # component: a port connected to a service, a sub-interface of the other port connected, and the pair on an explicit link
+    for kind in port_kinds():
+        if kind in ("smart6", "smart5", "shared"):
+            continue            # (in the cases above)
+        X = [["node", "n0", "RENC"], ["comp", "n0", "x1", kind], ["comp", "n0", "g1", "gpu"], ["node", "n1", "RENC"], ["comp", "n1", "n1-c0", "smart6"]]
+        P0, P1 = ["n", "n0", "x1", 0], ["n", "n0", "x1", nports(kind) - 1]
+        out.append(X + [["service", "s0", [P0, B]], ["mark", "comp", "n0", "x1"]])
+        if dedicated(kind):
+            out.append(X + [["child", "n0", "x1", 0, "ch0", "100"], ["service", "s0", [["c", "n0", "x1", 0, "ch0"], B]],
+                            ["service", "s1", [P1] if P1 != P0 else []]])
+            out.append(X + [["link", "l0", [P0, B], "L2Path"], ["service", "s1", [P1, B2] if P1 != P0 else [B2]]])
+    # services of every type, with a site of their own (given at creation) or one written by validate(), holding one or two
+    # interfaces: whatever is removed next to them, they keep their properties
+    for i, stype in enumerate(SERVICE_TYPES):
+        one = [A] if stype == "L2PTP" or i % 2 else [["n", "n2", "n2-c0", 0]]
+        S3 = base + ([["node", "n2", "UKY"], ["comp", "n2", "n2-c0", "shared"]] if one != [A] else [])
+        # s0: site given at creation; s1: site written by validate() (where validate gets that far); one interface each, so
+        # that every removal next to them takes the last one away
+        out.append(S3 + [["service", "s0", one, {"t": stype, "site": SITES[i % 3]}], ["service", "s1", [B], {"t": stype}], ["validate"]])
     return out
 
 
@@ -348,8 +454,15 @@ def build(recipe):
         elif k == "switch":
             t.add_switch(name=st[1], site=st[2], nports=st[3], node_id=nid("w", st[1]))
         elif k == "service":
-            b.svc[st[1]] = t.add_network_service(name=st[1], nstype=fu.ServiceType.L2Bridge, node_id=nid("s", st[1]),
-                                                 interfaces=[resolve_if(b, x) for x in st[2]])
+            so = service_opts(st)
+            kw = {"site": so["site"]} if so.get("site") else {}
+            b.svc[st[1]] = t.add_network_service(name=st[1], nstype=fu.ServiceType[so.get("t", "L2Bridge")], node_id=nid("s", st[1]),
+                                                 interfaces=[resolve_if(b, x) for x in st[2]], **kw)
+        elif k == "validate":
+            try:
+                t.validate()
+            except Exception:
+                pass
         elif k == "connect":
             b.svc[st[1]].connect_interface(resolve_if(b, st[2]))
         elif k == "peer":
@@ -565,7 +678,7 @@ def add_history(rng, r, free=()):
                 cands.append(("node", [st[1]]))
             elif st[0] == "comp":
                 cands.extend([("comp", [st[1], st[2]])] * 3)
-                for pi in range({"shared": 1, "smart6": 2, "smart5": 2}.get(st[3], 0)):
+                for pi in range(nports(st[3])):
                     cands.append(("port", [["n", st[1], st[2], pi]]))
             elif st[0] == "child":
                 cands.extend([("child", [st[1], st[2], st[3], st[4]])] * 2)
@@ -903,7 +1016,7 @@ def all_ifrefs(recipe):
     out = []
     for st in recipe:
         if st[0] == "comp":
-            for p in range({"shared": 1, "smart6": 2, "smart5": 2}.get(st[3], 0)):
+            for p in range(nports(st[3])):
                 out.append(["n", st[1], st[2], p])
         elif st[0] == "child":
             out.append(["c", st[1], st[2], st[3], st[4]])
@@ -925,10 +1038,11 @@ def enumerate_ops(recipe):
             ops.append(["remove_node", st[1]])
         elif st[0] == "comp":
             ops.append(["remove_component", st[1], st[2]])
-            if st[3] == "nvme":
+            if st[3] == "nvme" or catalog()[st[3]][3] in ("Storage", "FPGA"):
+                # (remove_storage is remove_component under another name: it is offered whatever the component is)
                 ops.append(["remove_storage", st[1], st[2]])
-            if st[3] in ("shared", "smart6", "smart5"):
-                ops.append(["remove_network_service", "%s-%s-l2ovs" % (st[1], st[2])])
+            if own_service(st[1], st[2], st[3]):
+                ops.append(["remove_network_service", own_service(st[1], st[2], st[3])])
         elif st[0] == "child":
             ops.append(["remove_child", ["n", st[1], st[2], st[3]], st[4]])
         elif st[0] == "facility":
